@@ -37,3 +37,11 @@ class TreeIndenter(Indenter):
     INDENT_type = '_INDENT'
     DEDENT_type = '_DEDENT'
     tab_len = 8
+
+
+class TreeIndenter4(TreeIndenter):
+    tab_len = 4
+
+
+class TreeIndenter1(TreeIndenter):
+    tab_len = 1
